@@ -24,7 +24,7 @@ def main(args, decide_fn, props):
     for mj in muts + seeded:
         meta = json.load(open(mj))
         prop = meta.get("property") or meta.get("breaks")
-        if args and prop not in args and os.path.basename(os.path.dirname(mj)) not in args:
+        if args and prop not in args and os.path.basename(os.path.dirname(mj)) not in args and os.path.basename(mj)[:-5] not in args:
             continue
         if prop not in props:
             print("SKIP %s (property %s not claimed)" % (mj, prop))
